@@ -15,7 +15,7 @@ NoF == [has |-> FALSE, x |-> 0]
 NoS == [has |-> FALSE, s |-> ""]
 FV(x) == [has |-> TRUE, x |-> x]
 SV(t) == [has |-> TRUE, s |-> t]
-Groups == {"a", "b"}
+Groups == {"a", "b", "c"}          \* the exhaustive tables use "a" and "b"; the extra tables (ordering, limit) all three
 Vals == {[k |-> "none", n |-> 0], [k |-> "nan", n |-> 0]} \cup {[k |-> "num", n |-> x] : x \in {-1, 0, 2}}
 Numeric(v) == v.k = "num"
 \* the field as text (last(), len()); numbers beyond the small alphabet come from the extra tables (magnitudes at which
@@ -24,7 +24,7 @@ Str(v) == IF v.k = "nan" THEN "x" ELSE ToString(v.n)
 RECURSIVE Digits(_)
 Digits(n) == IF n < 10 THEN 1 ELSE 1 + Digits(n \div 10)
 SLen(v) == IF v.k # "num" THEN 1 ELSE IF v.n < 0 THEN 1 + Digits(0 - v.n) ELSE Digits(v.n)
-LineT == [g : Groups, v : Vals]
+LineT == [g : {"a", "b"}, v : Vals]
 Empty == [samples |-> 0, F |-> [i \in 1..2 |-> NoF], S |-> [i \in 1..2 |-> NoS]]
 Min2(a, b) == IF a < b THEN a ELSE b
 Max2(a, b) == IF a > b THEN a ELSE b
@@ -84,6 +84,33 @@ Merge(g, set, withCount, op) ==
 Row(s, withCount, op) ==
   [cnt |-> IF withCount THEN Z(s.F[1]) ELSE 0,
    s |-> IF op = "last" THEN ZS(s.S[2]) ELSE "", x |-> IF op = "last" THEN 0 ELSE Z(s.F[2]), n |-> IF op = "avg" THEN s.samples ELSE 0]
+
+
+\* ---- ordering and limit (groupset.go resultOrderBy(), the loops of Result() / resultWriteUnformatted()).  "order by X"
+\* sorts the rows by column X with the largest first, "rorder by X" with the smallest first; "limit N" keeps the first N
+\* rows.  Only the choice among tied rows may differ.  `out` is the sequence of group keys of the rows that were output,
+\* key[g] = <<num, den>> the central value of the order column for group g (a fraction, so that avg stays exact).
+Less(p, q) == p[1] * q[2] < q[1] * p[2]            \* p < q for fractions with positive denominators
+MinI(a, b) == IF a < b THEN a ELSE b
+RowsAcceptable(out, key, ord, lim) ==
+  LET all == DOMAIN key
+      n == Cardinality(all)
+      want == IF lim < 0 THEN n ELSE MinI(lim, n)
+      inOut == {out[i] : i \in 1..Len(out)}
+      Before(p, q) == IF ord = "order" THEN Less(q, p) ELSE Less(p, q)    \* p must come strictly before q
+  IN /\ Len(out) = want /\ Cardinality(inOut) = Len(out) /\ inOut \subseteq all
+     /\ ord # "" => /\ (\A i, j \in 1..Len(out) : i < j => ~Before(key[out[j]], key[out[i]]))
+                     /\ (\A g \in all \ inOut : \A k \in 1..Len(out) : ~Before(key[g], key[out[k]]))
+\* Impl: the rows are collected in the iteration order of a Go map (any permutation), sorted with a stable sort, cut
+ImplOrderOK(key, ord, lim) ==
+  \A perm \in {p \in [1..Cardinality(DOMAIN key) -> DOMAIN key] : \A i, j \in DOMAIN p : i # j => p[i] # p[j]} :
+     LET n == Cardinality(DOMAIN key)
+         Before(p, q) == IF ord = "order" THEN Less(q, p) ELSE Less(p, q)
+         \* position of perm[i] after a stable sort: elements strictly before it, plus equal ones that stood before it
+         Pos(i) == 1 + Cardinality({j \in 1..n : Before(key[perm[j]], key[perm[i]]) \/ (~Before(key[perm[i]], key[perm[j]]) /\ j < i)})
+         sorted == IF ord = "" THEN perm ELSE [k \in 1..n |-> perm[CHOOSE i \in 1..n : Pos(i) = k]]
+         want == IF lim < 0 THEN n ELSE MinI(lim, n)
+     IN RowsAcceptable(SubSeq(sorted, 1, want), key, ord, lim)
 
 VARIABLES lines, part, withCount, op, accumulate, wh
 vars == <<lines, part, withCount, op, accumulate, wh>>
